@@ -30,6 +30,10 @@ theorem tie_putReplicasConds : putReplicasConds =
 theorem tie_retryPredicate : putReplicasConds.getLast? =
     some "if status.statusCode == 0 || status.statusCode == 408 || status.statusCode == 429 || (status.statusCode >= 500 && status.statusCode != 503)" := rfl
 
+/-- the InsufficientReplicas exit is guarded by "nothing in flight and no retries left" and by
+nothing else (`startUploads`' `none` branch; `FailAt` in the proofs) -/
+theorem tie_errorExit : putReplicasConds.getD 6 "" = "if active == 0 && retriesRemaining == 0" := rfl
+
 /-- the model's `retryable` is that predicate -/
 theorem tie_retryable (code : Nat) : ArvVerif.C11.retryable code =
     (code == 0 || code == 408 || code == 429 || (decide (code ≥ 500) && code != 503)) := rfl
@@ -82,6 +86,9 @@ theorem tie_loadConds : loadConds =
      "if service.ReadOnly == false",
      "if service.SvcType != \"disk\"",
      "if service.SvcType != \"disk\""] := rfl
+
+/-- the writable map is filled under the read-only test alone (`loadStep`), whatever the type -/
+theorem tie_writableGuard : loadConds.getD 2 "" = "if service.ReadOnly == false" := rfl
 
 theorem tie_loadStrings : loadStrings = ["http", "https", "%s://%s:%d", "disk", "disk"] := rfl
 
